@@ -1,21 +1,42 @@
 """C16 — substitutions behave as finite maps from parameters to expressions."""
 import random
+import re
 from common import *
+
+
+NP = 48          # parameters: 0..15 level 1, 16..31 level 2, 32..47 level 1 again (a sibling list)
+
+
+def value(rnd):
+    # a fresh expression, or (1 in 4) a parameter: renaming p -> q, identity p -> p
+    return rnd.randrange(64) if rnd.random() < 0.75 else 64 + rnd.randrange(NP)
 
 
 def gen_cases(tier, seed):
     rnd = random.Random(seed)
     cases = []
-    for p in range(0, 32, 3):
-        cases.append("elem %d %d ? %s" % (p, p % 64, " ".join(map(str, range(32)))))
+    allq = " ".join(map(str, range(NP)))
+    for p in range(0, NP, 3):
+        cases.append("elem %d %d ? %s" % (p, p % 64, allq))
+    for p in range(0, NP, 5):
+        cases.append("elem %d %d ? %s" % (p, 64 + (p + 1) % NP, allq))        # renaming to the next parameter
+        cases.append("elem %d %d ? %s" % ((p + 1) % NP, 64 + (p + 1) % NP, allq))  # then the identity binding of that parameter
     n = 300 if tier == "quick" else 5000
     for i in range(n):
-        dom = rnd.sample(range(32), rnd.choice([1, 2, 3, 8, 16, 30]))
+        if i % 4 == 3:
+            p = rnd.randrange(NP)
+            cases.append("elem %d %d ? %s" % (p, rnd.choice([value(rnd), 64 + p]), allq))
+            continue
+        dom = rnd.sample(range(NP), rnd.choice([1, 2, 3, 8, 16, 30]))
         ln = rnd.choice([0, 1, 2, 5, 20, 100])
-        bs = ["%d:%d" % (rnd.choice(dom), rnd.randrange(64)) for _ in range(ln)]
-        qs = list(range(32)) if i % 3 == 0 else [rnd.randrange(32) for _ in range(10)]
+        bs = ["%d:%d" % (rnd.choice(dom), value(rnd)) for _ in range(ln)]
+        qs = list(range(NP)) if i % 3 == 0 else [rnd.randrange(NP) for _ in range(10)]
         cases.append("gen %s ? %s" % (",".join(bs) or "-", " ".join(map(str, qs))))
     return cases
+
+
+def val(v):
+    return "v%d" % v if v < 64 else "p%d" % (v - 64)
 
 
 def expected(case):
@@ -23,13 +44,13 @@ def expected(case):
     qs = [int(x) for x in w[w.index("?") + 1:]]
     if w[0] == "elem":
         p, v = int(w[1]), int(w[2])
-        return " ".join("v%d" % v if q == p else "p%d" % q for q in qs)
+        return " ".join(val(v) if q == p else "p%d" % q for q in qs)
     m = {}
     if w[1] != "-":
         for b in w[1].split(","):
             p, v = b.split(":")
             m[int(p)] = int(v)
-    return " ".join("v%d" % m[q] if q in m else "p%d" % q for q in qs)
+    return " ".join(val(m[q]) if q in m else "p%d" % q for q in qs)
 
 
 def check(res):
@@ -59,7 +80,7 @@ def check(res):
                 res.violation("oracle:" + key, "applying a %s substitution to parameter %s (%s its domain) yields %s, expected %s" %
                               ("elementary" if kind == "elem" else "general", qs[j], "inside" if inside else "outside", o.split()[j], want.split()[j]),
                               {"case": c[:800], "observed": o[:400], "expected": want[:400], "rerun": "echo '<case>' | subst_driver"})
-        elif i < len(ml) and ml[i] != o:
+        elif i < len(ml) and re.sub(r"v(\d+)", lambda m_: val(int(m_.group(1))), ml[i]) != o:
             nd += 1
             if nd <= 3:
                 res.violation("diff", "model (Subst.v) and implementation disagree", {"case": c[:800], "impl": o[:300], "model": ml[i][:300]}, no_input=True)
@@ -68,7 +89,8 @@ def check(res):
     res.coverage.update({
         "evaluations": sum(len(c.split()) - c.split().index("?") - 1 for c in cases),
         "distinct_nontrivial": len(set(cases)),
-        "rule": "elementary substitutions queried on every parameter of two mappings (inside/outside the domain, parameters of another mapping); "
+        "rule": "one Lexicon for the whole run (so that caches would show); elementary substitutions (fresh values, renamings, identity bindings, the same "
+                "binding requested again) queried on every parameter of three parameter lists, two of which share level and positions; "
                 "general substitutions with 0..100 bindings over domains of 1..30 parameters incl. rebinding, queried on all or 10 random parameters",
         "samples": [cases[0][:160], cases[len(cases) // 2][:160]],
         "traces_validated_against_impl": min(len(ml), len(outs)),
